@@ -38,7 +38,7 @@ W = 'circus.watcher:Watcher.'
 
 
 def check(run, ctx):
-    run.each(ctx, [r1, r2, r3, r4, r5, r6, r7])
+    run.each(ctx, [r1, r2, r3, r4, r5, r6, r7, r8])
 
 
 def r7(run, ctx):
@@ -264,6 +264,45 @@ def r4(run, ctx):
             okk = hdr[0].id not in c2.reach(start, avoid=cl, include_src=True)
         run.check('R4', okk, 'close_all closes every managed socket', g, cl[0].ast,
                   'close_all skips some sockets')
+
+
+def r8(run, ctx):
+    run.rule('R8', 'a managed socket leaves the table only closed')
+    # close_all at shutdown closes (and unlinks) what is in the table: a socket that a
+    # reloadconfig drops or replaces must be closed when it leaves the table, or its
+    # descriptor and its unix-socket file outlive the daemon
+    f = ctx.fn(A + 'reload_from_config')
+    cfg = ctx.cfg(f)
+    closes = [n for n in ctx.live_nodes(f) for c in n.calls()
+              if astq.call_last(c) == 'close' and isinstance(c.func, ast.Attribute)]
+    dels = [n for n in ctx.live_nodes(f) if n.kind == 'stmt' and isinstance(n.ast, ast.Delete) and
+            any(isinstance(t, ast.Subscript) and norm_text(t.value) == 'self.sockets'
+                for t in n.ast.targets)]
+    if not run.need('R8', dels, 'removal of a socket from the table in reload_from_config', f,
+                    'sockets deleted from the configuration stay in the table'):
+        return
+    for d in dels:
+        hdr = [h for h in cfg.nodes if h.kind == 'iter' and d.id in cfg.branch_nodes(h, 'true')]
+        if not run.need('R8', hdr, 'loop over the sockets to drop', f):
+            continue
+        h = hdr[-1]
+        start = [cfg.nodes[i] for i, lab in cfg.succ[h.id] if lab == 'true']
+        body = cfg.branch_nodes(h, 'true')
+        cl_in = [c for c in closes if c.id in body]
+        nxt = cfg.reach(start, avoid=cl_in, include_src=True,
+                        labels_excluded=('exc', 'raise', 'reraise'))
+        run.check('R8', bool(cl_in) and h.id not in nxt,
+                  'every socket of the drop loop is closed', f, d.ast,
+                  'reload_from_config can go on to the next dropped / replaced socket without '
+                  'closing this one: the old socket stays bound, is no longer in the table that '
+                  'shutdown closes, and its unix-socket file is left behind when the daemon exits',
+                  construct='SOCKET-DROPPED-UNCLOSED')
+        nxt = cfg.reach(start, avoid=[d], include_src=True,
+                        labels_excluded=('exc', 'raise', 'reraise'))
+        run.check('R8', h.id not in nxt, 'every socket of the drop loop leaves the table', f,
+                  d.ast, 'a dropped / replaced socket can stay in the table (its replacement '
+                  'overwrites the entry, the old object is lost unclosed)',
+                  construct='SOCKET-NOT-REMOVED')
 
 
 def r5(run, ctx):
